@@ -514,7 +514,7 @@ func runC08(p *core.Prog, r *core.Report) {
 				if !ok || !t.isStart(c) {
 					return
 				}
-				if _, isGo := c.(*ssa.Go); isGo || !wreach[fn] {
+				if _, isGo := c.(*ssa.Go); isGo || !wreach[fn] || !onlyCalledFrom(p, fn, map[*ssa.Function]bool{t.Worker: true}) {
 					okWho = false
 					where = fnName(fn) + " at " + p.Pos(in.Pos())
 				}
@@ -589,7 +589,25 @@ func runC08(p *core.Prog, r *core.Report) {
 				}
 			}
 		}
-		r.Check(n == 1 && okCap, "C08-R2", "shared hand-over channel is one unbuffered channel", p.FuncPos(t.Ctor), "made once with capacity 0", fmt.Sprintf("shared channel assigned %d time(s), unbuffered=%v: a buffered hand-over parks a task where no idle worker is guaranteed to look", n, okCap))
+		// installed on every path of the constructor (a conditionally created channel is nil for some sizes: select arms on nil never fire)
+		uncond := true
+		cutS := sx.Cut{Instrs: map[ssa.Instruction]bool{}}
+		sx.Instrs(t.Ctor, func(in ssa.Instruction) {
+			if st, ok := in.(*ssa.Store); ok {
+				if fa, ok := st.Addr.(*ssa.FieldAddr); ok && sx.FieldOf(fa) == t.Shared {
+					cutS.Instrs[in] = true
+				}
+			}
+		})
+		for _, ret := range sx.Returns(t.Ctor) {
+			if len(cutS.Instrs) == 0 || sx.ReachInstr(t.Ctor, nil, ret, cutS) {
+				uncond = false
+			}
+		}
+		if !uncond {
+			okCap = false
+		}
+		r.Check(n == 1 && okCap, "C08-R2", "shared hand-over channel is one unbuffered channel", p.FuncPos(t.Ctor), "made once, unconditionally, with capacity 0", fmt.Sprintf("shared channel assigned %d time(s), unbuffered and on every constructor path=%v: a buffered hand-over parks a task where no idle worker is guaranteed to look; a channel that is only created for some lane counts is nil otherwise and its select arms never fire", n, okCap))
 	}
 	// the per-lane hand-over channels are unbuffered: resolved by construction (Blocking = list whose channels have constant capacity 0)
 	r.OK("C08-R2", "per-lane hand-over channels are unbuffered", p.FuncPos(t.Ctor), t.Blocking.Name()+" elements are made with constant capacity 0")
